@@ -2,13 +2,14 @@
 Direct oracle: decode(encode(v)) == v (floats bit for bit, float32 after rounding, UUID leaves resolved
 through the IR), alone and embedded (tuple with sentinel, sequence of two) to observe exact consumption.
 Correspondence: implementation bytes/values vs the extracted Coq codec."""
+import io
 import json
 
 import auxval
 import gtirb_from_repo
 from auxval import canon, to_sx, type_str
 from codec_cases import expected_after_roundtrip, features, gen_cases, impl_decode, impl_encode
-from common import model_batch, model_result, zs
+from common import exc_name, model_batch, model_result, zs
 
 LEVEL = "proof"
 TRUSTED = (
@@ -134,6 +135,7 @@ def run(ctx):
         if mm != im:
             ctx.add("corr", "encode-error-differs", "type %s value %r: implementation %s, model %s" % (tn, v, _b(im), _b(mm)),
                     {"type_name": tn, "value": repr(v), "impl": _b(im), "model": _b(mm), "stream": "C07 malformed encode correspondence"})
+    resolution_stream(ctx, g)
     ctx.cov["in_theorem_domain"] = in_domain
     ctx.cov["traces_validated_against_impl"] = len(meta) + len(mal)
     ctx.cov["rule"] = ("leaf boundary catalogue + random type trees (depth<=5) with random values; non-trivial = container type or "
@@ -141,6 +143,93 @@ def run(ctx):
                        "for which the Coq predicate wt (premise of decode_encode) evaluates to true")
     for rec in meta[200:204]:
         ctx.sample({"type_name": rec["tn"], "value_sx": rec["vs"], "bytes": rec["enc"][1].hex() if rec["enc"][0] == "ok" else rec["enc"][1]})
+
+
+def resolution_stream(ctx, g):
+    """UUID / Offset entries come back as node objects exactly for the nodes attached to the given IR AT THE TIME OF DECODING:
+    the same bytes are decoded against the same IR before and after nodes are detached, re-attached, moved to another IR,
+    and after a new node with a previously unknown UUID is attached; and against a second IR."""
+    import uuid as uuidlib
+    rng = ctx.rng
+    S = g.AuxData.serializer
+    for _ in range(25 if ctx.quick else 400):
+        ir, ir2 = g.IR(), g.IR()
+        m = g.Module(name="m", ir=ir)
+        m2 = g.Module(name="m2", ir=ir2)
+        sec = g.Section(name="s", module=m)
+        bi = g.ByteInterval(size=16, section=sec)
+        blocks = [g.CodeBlock(size=1, offset=i, byte_interval=bi) for i in range(3)]
+        px = g.ProxyBlock(module=m)
+        sym = g.Symbol("y", module=m)
+        late_uuid = uuidlib.UUID(int=rng.getrandbits(128))
+        pool = [x.uuid for x in blocks + [px, sym, sec, bi, m]] + [late_uuid, uuidlib.UUID(int=rng.getrandbits(128))]
+        tn = rng.choice(["sequence<UUID>", "set<UUID>", "mapping<UUID,uint8_t>", "sequence<Offset>", "mapping<string,variant<UUID,Offset>>",
+                         "tuple<Offset,sequence<tuple<UUID,bool>>>"])
+        us = [rng.choice(pool) for _ in range(4)]
+
+        def value():
+            if tn == "sequence<UUID>":
+                return list(us)
+            if tn == "set<UUID>":
+                return set(us)
+            if tn == "mapping<UUID,uint8_t>":
+                return {u: i for i, u in enumerate(us)}
+            if tn == "sequence<Offset>":
+                return [g.Offset(u, i) for i, u in enumerate(us)]
+            if tn == "mapping<string,variant<UUID,Offset>>":
+                return {str(i): g.serialization.Variant(i % 2, u if i % 2 == 0 else g.Offset(u, 7)) for i, u in enumerate(us)}
+            return (g.Offset(us[0], 1), [(u, True) for u in us[1:]])
+        buf = io.BytesIO()
+        S.encode(buf, value(), tn)
+        bs = buf.getvalue()
+
+        def leaves(v):
+            if isinstance(v, (g.Node, uuidlib.UUID)):
+                yield v
+            elif isinstance(v, g.Offset):
+                yield v.element_id
+            elif isinstance(v, g.serialization.Variant):
+                yield from leaves(v.val)
+            elif isinstance(v, dict):
+                for k, x in v.items():
+                    yield from leaves(k)
+                    yield from leaves(x)
+            elif isinstance(v, (list, tuple, set, frozenset)):
+                for x in v:
+                    yield from leaves(x)
+
+        def check(which, target, stage):
+            try:
+                dec = S.decode(bs, tn, target.get_by_uuid)
+            except Exception as e:  # noqa: BLE001
+                ctx.add("oracle", "resolution", "decoding raised %s" % exc_name(g, e), {"type_name": tn, "stage": stage})
+                return False
+            for leaf in leaves(dec):
+                u = leaf.uuid if isinstance(leaf, g.Node) else leaf
+                want = target.get_by_uuid(u)
+                ctx.count("resolution_leaves")
+                if (want is not None and leaf is not want) or (want is None and isinstance(leaf, g.Node)):
+                    ctx.add("oracle", "resolution", "%s: a UUID entry decodes to %s while the IR %s" %
+                            (stage, "a node object" if isinstance(leaf, g.Node) else "a plain UUID",
+                             "holds no such node" if want is None else "holds that node"),
+                            {"type_name": tn, "stage": stage, "ir": which, "bytes": bs.hex()})
+                    return False
+            return True
+        if not (check("ir", ir, "initially") and check("ir2", ir2, "other IR")):
+            continue
+        # edit the IR between decodes
+        victim = rng.choice(blocks)
+        bi.blocks.discard(victim)
+        if not check("ir", ir, "after detaching a block"):
+            continue
+        newnode = g.CodeBlock(size=1, offset=9, uuid=late_uuid, byte_interval=bi)
+        if not check("ir", ir, "after attaching a node whose UUID was unknown before"):
+            continue
+        bi.blocks.add(victim)
+        px.module = m2
+        if not (check("ir", ir, "after re-attaching the block and moving the proxy away") and check("ir2", ir2, "other IR after the move")):
+            continue
+        ctx.case("resolution" + tn + bs.hex(), True)
 
 
 def _b(r):
